@@ -1,5 +1,5 @@
 (* ConnProofs2.v — C06: the reason a stream ended is reported.  Statements over all schedules. *)
-From GB Require Import Base.Prelude Model.Conn Proofs.ConnInv Proofs.ConnInv2.
+From GB Require Import Base.Prelude Model.Conn Proofs.ConnInv Proofs.ConnInv2 Proofs.ConnInv3 Proofs.ConnTrace.
 Open Scope nat_scope.
 
 (* ---- stream_errs: a failure anywhere in the schedule makes Stream return non-nil ---- *)
@@ -125,16 +125,17 @@ Qed.
 Lemma canc_at_err_sound c s : reachable c s -> canc_at_err s = true -> cancelled s = true.
 Proof. intros Hr. destruct (reachable_Inv2 _ _ Hr) as (_ & _ & _ & _ & _ & _ & A7 & _). exact A7. Qed.
 
-(* ---- K2: the strong form (cancelled before Stream returned) is false, pinned and repaired ---- *)
+(* ---- K2: the strong form (cancelled before Stream returned) is false on the pinned code and after the
+   D9/D10 repairs, as long as K2 itself is not repaired ---- *)
 Definition sched_k2 : list label :=
   [LConnectOk; LStartOk; LArrive (PkERR 1236%Z); LReaderRecv; LReaderPutErr; LReaderCloseErr; LReaderCloseEv;
    LParserSeeClosed; LStreamDefer; LStreamReturn; LCancel; LCallError; LErrorStep].
 
-Lemma error_reports_refuted c : d9_wrong c = false -> exists ls s,
+Lemma error_reports_refuted c : d9_wrong c = false -> fix_k2 c = false -> exists ls s,
   run c init ls = Some s /\ stream_result s = Some RNil /\ first_res s = Some ENil /\
   rreason s = Some (RMaster 1236%Z) /\ canc_pre_ret s = false.
 Proof.
-  intros Hw. destruct c as [a b w]; cbn in Hw; subst w.
+  intros Hw Hk. destruct c as [a b w k]; cbn in Hw, Hk; subst w k.
   exists sched_k2. eexists. split; [vm_compute; reflexivity|]. repeat split.
 Qed.
 
@@ -143,11 +144,11 @@ Definition sched_k2_late : list label :=
   [LConnectOk; LStartOk; LArrive (PkERR 1236%Z); LReaderRecv; LReaderPutErr; LReaderCloseErr; LReaderCloseEv;
    LParserSeeClosed; LStreamDefer; LStreamReturn; LCallError; LCancel; LErrorStep].
 
-Lemma error_reports_call_time_refuted c : d9_wrong c = false -> exists ls s,
+Lemma error_reports_call_time_refuted c : d9_wrong c = false -> fix_k2 c = false -> exists ls s,
   run c init ls = Some s /\ stream_result s = Some RNil /\ first_res s = Some ENil /\
   rreason s = Some (RMaster 1236%Z) /\ canc_pre_call s = false.
 Proof.
-  intros Hw. destruct c as [a b w]; cbn in Hw; subst w.
+  intros Hw Hk. destruct c as [a b w k]; cbn in Hw, Hk; subst w k.
   exists sched_k2_late. eexists. split; [vm_compute; reflexivity|]. repeat split.
 Qed.
 
@@ -161,12 +162,12 @@ Lemma error_carries_trap_refuted : exists ls s,
   cancelled s = false /\ first_res s = Some ENil.
 Proof. exists sched_trap. eexists. split; [vm_compute; reflexivity|]. repeat split. Qed.
 
-Lemma trap_swallows_every_error c s e : fix_d9 c = true -> d9_wrong c = true -> reachable c s ->
-  first_res s = Some e -> e = ENil.
+Lemma trap_swallows_every_error c s e : fix_d9 c = true -> d9_wrong c = true -> fix_k2 c = false ->
+  reachable c s -> first_res s = Some e -> e = ENil.
 Proof.
-  intros H9 Hw Hr He.
+  intros H9 Hw Hk Hr He.
   destruct (reachable_Inv2 _ _ Hr) as (_ & _ & _ & _ & A5 & _).
-  specialize (A5 e He). unfold filter_ctx in A5. rewrite H9, Hw in A5. rewrite orb_true_r in A5.
+  specialize (A5 e He). unfold filter_ctx in A5. rewrite H9, Hw, Hk in A5. rewrite orb_true_r in A5. cbn in A5.
   destruct (s_chan s); auto. destruct A5 as (r & _ & E). exact E.
 Qed.
 
@@ -174,3 +175,95 @@ Qed.
 Lemma repaired_delivers : exists s,
   run cfg_fixed init sched_trap = Some s /\ first_res s = Some (EErr (RMaster 1236%Z)).
 Proof. eexists. split; [vm_compute; reflexivity|]. reflexivity. Qed.
+
+(* ---- K2 repaired (fix_k2): only a cancellation that happened before parseEvents returned hides the reason ---- *)
+Lemma nil_ended_uncancelled c s : reachable c s -> stream_result s = Some RNil -> canc_pre_pe s = false ->
+  ended_uncancelled s = true.
+Proof.
+  intros Hr Hs Hc.
+  destruct (reachable_Inv1 _ _ Hr) as (_ & HP & _).
+  destruct (reachable_Inv3 _ _ Hr) as (_ & B2 & _).
+  unfold ps_inv, stream_result in *. destruct (ps s) eqn:E; try discriminate. inversion Hs; subst.
+  destruct HP as (_ & _ & _ & _ & HP). apply B2; auto.
+Qed.
+
+Lemma error_reports_strong c s : fix_k2 c = true -> d9_wrong c = false -> reachable c s ->
+  stream_result s = Some RNil -> first_res s = Some ENil ->
+  canc_pre_pe s = true \/ rreason s = Some REof.
+Proof.
+  intros Hk Hw Hr Hs He.
+  destruct (canc_pre_pe s) eqn:Ec; auto. right.
+  destruct (first_error_result c s ENil Hr Hs He) as (r & E1 & E2).
+  unfold filter_ctx in E2. rewrite Hk, (nil_ended_uncancelled c s Hr Hs Ec), andb_false_r in E2. cbn in E2.
+  destruct r; try discriminate; auto.
+  exfalso.
+  destruct (reachable_Inv3 _ _ Hr) as (_ & _ & _ & _ & B5).
+  assert (Hp : pnil s = true).
+  { unfold pnil, stream_result in *. destruct (ps s); try discriminate. inversion Hs; subst. reflexivity. }
+  destruct (B5 Hp) as [X | (_ & X)]; congruence.
+Qed.
+
+Lemma error_carries_strong c s r e : fix_k2 c = true -> d9_wrong c = false -> reachable c s ->
+  stream_result s = Some RNil -> rreason s = Some r -> (r = RTransport \/ exists code, r = RMaster code) ->
+  canc_pre_pe s = false -> first_res s = Some e -> e = EErr r.
+Proof.
+  intros Hk Hw Hr Hs Hre Hkind Hc He.
+  destruct (first_error_result c s e Hr Hs He) as (r' & E1 & E2).
+  unfold filter_ctx in E2. rewrite Hk, (nil_ended_uncancelled c s Hr Hs Hc), andb_false_r in E2. cbn in E2.
+  assert (r' = r) by congruence. subst r'.
+  destruct Hkind as [-> | (code & ->)]; exact E2.
+Qed.
+
+(* the same two statements with "before Stream returned" (weaker conclusion / stronger premise: a cancellation
+   before parseEvents returned is a cancellation before Stream returned) *)
+Lemma canc_pre_pe_pre_ret c s : reachable c s -> canc_pre_pe s = true -> canc_pre_ret s = true.
+Proof. intros Hr H. destruct (reachable_Inv3 _ _ Hr) as (_ & _ & B3 & _). apply B3; auto. Qed.
+
+Lemma error_reports_strong_ret c s : fix_k2 c = true -> d9_wrong c = false -> reachable c s ->
+  stream_result s = Some RNil -> first_res s = Some ENil ->
+  canc_pre_ret s = true \/ rreason s = Some REof.
+Proof.
+  intros Hk Hw Hr Hs He. destruct (error_reports_strong c s Hk Hw Hr Hs He) as [X|X]; auto.
+  left. eapply canc_pre_pe_pre_ret; eauto.
+Qed.
+
+Lemma error_carries_strong_ret c s r e : fix_k2 c = true -> d9_wrong c = false -> reachable c s ->
+  stream_result s = Some RNil -> rreason s = Some r -> (r = RTransport \/ exists code, r = RMaster code) ->
+  canc_pre_ret s = false -> first_res s = Some e -> e = EErr r.
+Proof.
+  intros Hk Hw Hr Hs Hre Hkind Hc He. eapply error_carries_strong; eauto.
+  destruct (canc_pre_pe s) eqn:E; auto. rewrite (canc_pre_pe_pre_ret c s Hr E) in Hc. discriminate.
+Qed.
+
+(* ghost-free forms: the schedule itself *)
+Lemma error_reports_strong_trace c tr s : fix_k2 c = true -> d9_wrong c = false -> reach c tr s ->
+  stream_result s = Some RNil -> first_res s = Some ENil ->
+  cancel_before_sample tr = true \/ rreason s = Some REof.
+Proof.
+  intros Hk Hw Hr Hs He. rewrite <- (canc_pre_pe_sound c tr s Hr).
+  apply (error_reports_strong c s Hk Hw (ex_intro _ tr Hr) Hs He).
+Qed.
+
+Lemma error_carries_strong_trace c tr s r e : fix_k2 c = true -> d9_wrong c = false -> reach c tr s ->
+  stream_result s = Some RNil -> rreason s = Some r -> (r = RTransport \/ exists code, r = RMaster code) ->
+  cancel_before_sample tr = false -> first_res s = Some e -> e = EErr r.
+Proof.
+  intros Hk Hw Hr Hs Hre Hkind Hc He. rewrite <- (canc_pre_pe_sound c tr s Hr) in Hc.
+  apply (error_carries_strong c s r e Hk Hw (ex_intro _ tr Hr) Hs Hre Hkind Hc He).
+Qed.
+
+(* s.endedUncancelled is what it claims to be *)
+Lemma ended_uncancelled_sound c tr s : reach c tr s -> ended_uncancelled s = true ->
+  past_sample (ps s) = true /\ cancel_before_sample tr = false /\ s_chan s = true.
+Proof.
+  intros Hr H. destruct (reach_Inv3 _ _ _ Hr) as (B1 & _). destruct (B1 H) as (X1 & X2 & X3).
+  rewrite <- (canc_pre_pe_sound c tr s Hr). auto.
+Qed.
+
+(* the K2 schedule on the tree with K2 repaired reports the master's error; without the K2 repair it is lost *)
+Lemma k2_schedule_repaired :
+  (exists s, run cfg_fixed2 init sched_k2 = Some s /\ stream_result s = Some RNil /\ cancelled s = true /\
+             canc_pre_ret s = false /\ first_res s = Some (EErr (RMaster 1236%Z))) /\
+  (exists s, run cfg_fixed init sched_k2 = Some s /\ stream_result s = Some RNil /\ cancelled s = true /\
+             canc_pre_ret s = false /\ first_res s = Some ENil).
+Proof. split; eexists; (split; [vm_compute; reflexivity | repeat split]). Qed.
